@@ -10,6 +10,8 @@ from vlib.par import pmap
 PROPERTY = 'C02'
 LEVEL = 'other'
 TARGETS = [
+    ('equality', 'graphtage.KeyValuePairNode.__eq__'), ('equality', 'sequences.SequenceNode.__eq__'),
+    ('equality', 'graphtage.LeafNode.__eq__'), ('equality', 'xml.XMLElement.edits'),
     ('levenshtein_distance', 'levenshtein.levenshtein_distance'),
     ('nodes', 'graphtage.LeafNode.edits'), ('nodes', 'graphtage.StringNode.edits'), ('nodes', 'graphtage.NullNode.edits'), ('nodes', 'graphtage.ListNode.edits'),
     ('nodes', 'graphtage.KeyValuePairEdit.__init__'), ('core', 'edits.Replace.__init__'), ('core', 'edits.Match.__init__'),
